@@ -153,7 +153,7 @@ class CellBase(abc.ABC):
 
                 c2cn = c2c / np.linalg.norm(c2c)
 
-                angles = 180 * np.arccos(np.dot(self.get_side_normals(i), c2cn)) / np.pi
+                angles = 180 * np.arccos(np.clip(np.dot(self.get_side_normals(i), c2cn), -1.0, 1.0)) / np.pi
                 quality += np.sum(q_scale(1.25, 0.35, 0.8, angles))
                 ### cell inner angles
                 quality += np.sum(q_scale(1.5, 0.25, 0.15, abs(self.get_inner_angles(i))))
@@ -207,7 +207,7 @@ class QuadCell(CellBase):
         side_1 = f.unit_vector(points[2] - points[1])
         side_2 = f.unit_vector(points[0] - points[1])
 
-        return np.expand_dims(180 * np.arccos(np.dot(side_1, side_2)) / np.pi - 90, axis=0)
+        return np.expand_dims(180 * np.arccos(np.clip(np.dot(side_1, side_2), -1.0, 1.0)) / np.pi - 90, axis=0)
 
 
 class HexCell(CellBase):
@@ -246,4 +246,4 @@ class HexCell(CellBase):
         sides_2 = sides_2 / side_2_norms[:, np.newaxis]
 
         angles = np.sum(sides_1 * sides_2, axis=1)
-        return 180 * np.arccos(angles) / np.pi - 90
+        return 180 * np.arccos(np.clip(angles, -1.0, 1.0)) / np.pi - 90
